@@ -87,6 +87,10 @@ def core_bench(name, core_kwargs, req=None, with_contract=False, extra=None, inf
         extra(core, top, mon, kw)
     b = bmc.Bench(name, top, info=dict(info or {}, core=_jsonable(core_kwargs), req=req), **kw)
     b.core, b.mon = core, mon
+    b.watch = collections.OrderedDict()
+    for i, ph in enumerate(core.dfi.phases):
+        for n in ["cs_n", "ras_n", "cas_n", "we_n", "bank", "address"]:
+            b.watch["p%d_%s" % (i, n)] = getattr(ph, n)
     return b
 
 
